@@ -48,6 +48,10 @@ import (
 
 var out = common.NewOut(os.Stdout)
 
+// tightPrograms: also generate stages that re-use a port without any instruction in between
+// (VERIF_C02_TIGHT=0 restricts the generator to programs that satisfy PortReuseSafe by construction)
+var tightPrograms = common.EnvInt("VERIF_C02_TIGHT", 1) != 0
+
 // ---------------------------------------------------------------------------------- case data
 
 type archSpec struct {
@@ -494,7 +498,8 @@ func genProgram(r *common.Rng, a archSpec, ins, outs []int) []string {
 			ios[i], ios[j] = ios[j], ios[i]
 		}
 	}
-	nonIO := 1 // the closing jump
+	tight := tightPrograms && r.Chance(1, 4) // no separation between two uses of a port
+	nonIO := 1                               // the closing jump
 	lastReg := "r0"
 	seen := map[io]bool{}
 	for _, x := range ios {
@@ -502,7 +507,7 @@ func genProgram(r *common.Rng, a archSpec, ins, outs []int) []string {
 			continue
 		}
 		seen[x] = true
-		for k := r.Intn(3); k > 0; k-- {
+		for k := r.Intn(3); k > 0 && !tight; k-- {
 			lines = append(lines, filler())
 			nonIO++
 		}
@@ -515,6 +520,13 @@ func genProgram(r *common.Rng, a archSpec, ins, outs []int) []string {
 				rg = reg()
 			}
 			lines = append(lines, fmt.Sprintf("r2owa %s o%d", rg, x.port))
+		}
+		if tight && r.Chance(1, 3) { // the same port again, back to back (legal since the handshake fix 18c0f8e)
+			if x.in {
+				lines = append(lines, fmt.Sprintf("i2rw %s i%d", reg(), x.port))
+			} else {
+				lines = append(lines, fmt.Sprintf("r2owa %s o%d", reg(), x.port))
+			}
 		}
 		if r.Chance(1, 12) { // second use of the same port in one iteration, three fillers apart
 			for k := 0; k < 3; k++ {
@@ -536,7 +548,7 @@ func genProgram(r *common.Rng, a archSpec, ins, outs []int) []string {
 		lines = append(lines, "inc "+lastReg)
 		nonIO++
 	}
-	for nonIO < 4 {
+	for nonIO < 4 && !tight {
 		lines = append(lines, filler())
 		nonIO++
 	}
